@@ -39,9 +39,15 @@ LEVEL_NOTE = ("Trusted: Lean kernel (standard axioms); the link between the clas
               "placement/inverse of the REAL entry points is differential testing; value semantics cannot express aliasing, so "
               "'inputs untouched' and determinism are tested, not proved. Exempt from determinism: LowRankInitialize with "
               "svd='randomized' (or 'auto' at n >= 14, rank 1), which draws a random sketch matrix by design.")
-LEAN_TARGETS = ["QclibModel.Props.C15"]
+LEAN_TARGETS = ["QclibModel.Props.C15", "QclibModel.Props.C15Link"]
 THEOREMS = ["Qclib.C15_placement", "Qclib.C15_placement_inj", "Qclib.C15_spectator", "Qclib.C15_place",
-            "Qclib.C15_inverse", "Qclib.C15_width", "Qclib.C15_width_src"]
+            "Qclib.C15_inverse", "Qclib.C15_width", "Qclib.C15_width_src",
+            # Props/C15Link.lean: the gate lists of the other properties' models stay below the declared width of the table
+            "Qclib.C15_link_mcxVchainDirty", "Qclib.C15_link_linearMcx", "Qclib.C15_link_toffoli", "Qclib.C15_link_ucr",
+            "Qclib.C15_link_pqm", "Qclib.C15_link_fnPoints", "Qclib.C15_link_blackBox", "Qclib.C15_link_dcsp",
+            "Qclib.C15_link_bdsp", "Qclib.C15_link_topDown", "Qclib.C15_link_cvoqram", "Qclib.C15_link_pivot",
+            "Qclib.C15_link_ldmcu", "Qclib.C15_link_qdmcu", "Qclib.C15_link_mcg", "Qclib.C15_link_mcu",
+            "Qclib.C15_link_ldmcsu", "Qclib.C15_link_ldMcSpecialUnitary", "Qclib.C15_link_multiTargetMCSU2"]
 TRUSTED = [
     "qiskit QuantumCircuit.append/compose/inverse, Statevector/Operator/DensityMatrix (oracle side)",
     "the definitions of the real classes are not gate lists over G in general (UnitaryGate, UCGate, DiagonalGate, "
